@@ -245,6 +245,23 @@ def refusal_reqs():
     return reqs, meta
 
 
+def generic_cases():
+    """Default values next to fields whose type mentions a type / const parameter (the automatic `FieldTy: Default` bound
+    is what makes these impls well-formed): (definition, instantiation, expected value)."""
+    W = "#[derive(Debug)] pub struct W<const M: usize>(pub u8);\nimpl ::core::default::Default for W<2> { fn default() -> Self { W(9) } }\n"
+    return [
+        ("pub struct Ty<const N: usize> { pub buf: [u8; N], #[default(7)] pub len: u8 }", "Ty<3>", "Ty::<3> { buf: [0u8; 3], len: 7 }"),
+        ("pub struct Ty<T, const N: usize>(#[default(N as u8)] pub u8, pub [T; N]);", "Ty<i8, 2>", "Ty::<i8, 2>(2, [0i8; 2])"),
+        ("pub enum Ty<const N: usize> { A, #[default] B([u16; N], #[default(\"s\")] ::std::string::String) }", "Ty<4>",
+         "Ty::<4>::B([0u16; 4], ::std::string::String::from(\"s\"))"),
+        ("#[derive(Debug)] pub struct ND;\npub struct Ty<T>(pub ::std::vec::Vec<T>, #[default(5)] pub u8);", "Ty<ND>", "Ty::<ND>(vec![], 5)"),
+        (W + "pub struct Ty<const N: usize>(pub W<{ N }>, #[default(1 + 1)] pub i32);", "Ty<2>", "Ty::<2>(W(9), 2)"),
+        (W + "pub struct Ty<const N: usize> { #[default(\"q\")] pub s: ::std::string::String, pub w: ::core::option::Option<W<N>>, pub a: [W<N>; 1] }", "Ty<2>",
+         "Ty::<2> { s: ::std::string::String::from(\"q\"), w: None, a: [W(9)] }"),
+        ("pub struct Ty<'a, T: ?Sized>(pub ::core::option::Option<&'a T>, #[default(K32)] pub u32);\npub const K32: u32 = 77;", "Ty<'static, str>", "Ty::<str>(None, 77)"),
+    ]
+
+
 def run(rep, tier, rng):
     specs = []
     # core: every option alone, in a struct and in the default variant of an enum
@@ -288,6 +305,20 @@ def run(rep, tier, rng):
             cases.append(C.Case(f"n{j}{entry[0]}", code, {"kind": "neg", "why": why, "expr": ex, "ty": ty}))
             # positive control of the user-written piece: the expression itself is well typed
             cases.append(C.Case(f"m{j}{entry[0]}", f"pub fn run() {{ let _ = {ex}; }}", {"kind": "negctl"}))
+    for j, (defn, inst, want) in enumerate(generic_cases()):
+        entry = "attr" if j % 2 else "derive"
+        head = "#[::derive_ex::derive_ex(Default)]\n" if entry == "attr" else "#[derive(::derive_ex::Ex)]\n#[derive_ex(Default)]\n"
+        pre, item = defn.rsplit("pub struct Ty", 1) if "pub struct Ty" in defn else defn.rsplit("pub enum Ty", 1)
+        kw = "pub struct Ty" if "pub struct Ty" in defn else "pub enum Ty"
+        if "\npub const" in item:
+            item, tail = item.split("\npub const", 1)
+            pre += "pub const" + tail + "\n"
+        run_ = (f'pub fn run() {{ let got: {inst} = ::core::default::Default::default(); let want = {want};\n'
+                f'::dxrt::ev!("default", "got" => format!("{{:?}}", got), "want" => format!("{{:?}}", want)); }}')
+        cases.append(C.Case(f"g{j}", f"{pre}#[derive(Debug)]\n{head}{kw}{item}\n{run_}", {"kind": "gen", "defn": defn}))
+        import re as _re
+        plain = _re.sub(r"#\[default(\([^\]]*\))?\]\s*", "", f"{pre}#[derive(Debug)]\n{kw}{item}")
+        cases.append(C.Case(f"h{j}", plain + f"\npub fn run() {{ let _ = {want}; }}", {"kind": "ctl"}))
     _, notes = C.run_cases(cases, "c11", header=HEADER, batch_size=40)
     for n in notes:
         rep.inconcl(n)
@@ -308,6 +339,23 @@ def run(rep, tier, rng):
             rep.nontrivial.add(("neg", c.meta["why"]))
             if c.status == "ok":
                 sigs.setdefault(f"C11|conversion-inserted|{c.meta['why']}", []).append((c, f"`#[default({c.meta['expr']})]` on a `{c.meta['ty']}` field compiles: a conversion was inserted for an expression that is neither a string literal nor a path"))
+            continue
+        if c.meta["kind"] == "gen":
+            ctl = by_name["h" + c.name[1:]]
+            if ctl.status != "ok":
+                rep.inconcl(f"control of a generic case does not compile: {ctl.code[:200]}")
+                continue
+            rep.evaluations += 1
+            rep.count("generic_items")
+            rep.nontrivial.add(("generic", c.meta["defn"][:60]))
+            e = next((e for e in c.events if e.get("k") == "default"), None)
+            if c.status == "compile_fail":
+                d = next(x for x in c.diags if x["level"] == "error")
+                sigs.setdefault(f"C11|generic|compile_fail|{d['code']}", []).append((c, f"does not compile: {(d['message'] or '')[:200]}"))
+            elif e is None:
+                rep.inconcl("no observation for " + c.name)
+            elif e["got"] != e["want"]:
+                sigs.setdefault(f"C11|generic|value|{c.name}", []).append((c, f"default() = {e['got']} but documented value is {e['want']}"))
             continue
         s = c.meta["spec"]
         if c.status == "compile_fail":
@@ -379,7 +427,7 @@ def run(rep, tier, rng):
     rep.rule = ("structs/enums (all variant kinds, every choice of default variant, single-variant enums with and without marker) whose "
                 "fields carry #[default(expr)] with expr in {int/neg/bool/char/float literal, string literal, const path, associated "
                 "const path, qualified path, enum-variant path, call, block, macro, tuple, if, `_`}, with and without bound(..) in the "
-                "same attribute, and type-level values; Debug dump of default() is compared with a hand-written constructor; the "
+                "same attribute, type-level values, and items with type / const parameters next to valued fields ([u8; N], W<{ N }>, Vec<T>); Debug dump of default() is compared with a hand-written constructor; the "
                 "conversion is observable through a field type that records which From impl built it; expressions that are neither "
                 "a string literal nor a path must NOT get a conversion (negative compile cases with controls); refusals/acceptances "
                 "of enum shapes judged on the in-process expansion. evaluations = default() calls + negative cases + refusal points.")
